@@ -50,6 +50,16 @@ theorem clean_iop {a b : Expr} {op : BinOpK} (h : Clean (augAssignExpr a op b)) 
   | call _ _ _ _ h => exact ⟨h a (by simp), h b (by simp)⟩
   | other _ h => cases op <;> simp [isGlue, isGlue', Expr.str, augOpName] at h
 
+theorem clean_ifExp {c a b : Expr} (h : Clean (.ifExp c a b)) : Clean c ∧ Clean a ∧ Clean b := by
+  cases h with
+  | ifExp _ _ _ h1 h2 h3 => exact ⟨h1, h2, h3⟩
+  | other _ h => simp [isGlue, isGlue'] at h
+
+theorem clean_boolOp2 {op : BoolOpK} {a b : Expr} (h : Clean (.boolOp op [a, b])) : Clean a ∧ Clean b := by
+  cases h with
+  | boolOp2 _ _ _ h1 h2 => exact ⟨h1, h2⟩
+  | other _ h => simp [isGlue, isGlue'] at h
+
 theorem clean_chain {f a : Expr} (hc : isChain (.call f [a] []) = true) (h : Clean (.call f [a] [])) : Clean f ∧ Clean a := by
   cases h with
   | call _ _ _ hf h => exact ⟨hf, h a (by simp)⟩
@@ -89,6 +99,28 @@ mutual
         have ih1 := frame W h1 (clean_iop hc).1
         have ih2 := frame W h2 (clean_iop hc).2
         exact ⟨ih2.1.trans ih1.1, fun t2 => .iop a op b (ih1.2 t2) (ih2.2 t2) hg⟩
+    | _, _, _, _, _, _, .ifT c a b h1 hb h2, hc => by
+        have ih1 := frame W h1 (clean_ifExp hc).1
+        have ih2 := frame W h2 (clean_ifExp hc).2.1
+        exact ⟨ih2.1.trans ih1.1, fun t2 => .ifT c a b (ih1.2 t2) hb (ih2.2 t2)⟩
+    | _, _, _, _, _, _, .ifF c a b h1 hb h2, hc => by
+        have ih1 := frame W h1 (clean_ifExp hc).1
+        have ih2 := frame W h2 (clean_ifExp hc).2.2
+        exact ⟨ih2.1.trans ih1.1, fun t2 => .ifF c a b (ih1.2 t2) hb (ih2.2 t2)⟩
+    | _, _, _, _, _, _, .andF a b h1 hb, hc =>
+        have ih1 := frame W h1 (clean_boolOp2 hc).1
+        ⟨ih1.1, fun t2 => .andF a b (ih1.2 t2) hb⟩
+    | _, _, _, _, _, _, .andT a b h1 hb h2, hc => by
+        have ih1 := frame W h1 (clean_boolOp2 hc).1
+        have ih2 := frame W h2 (clean_boolOp2 hc).2
+        exact ⟨ih2.1.trans ih1.1, fun t2 => .andT a b (ih1.2 t2) hb (ih2.2 t2)⟩
+    | _, _, _, _, _, _, .orT a b h1 hb, hc =>
+        have ih1 := frame W h1 (clean_boolOp2 hc).1
+        ⟨ih1.1, fun t2 => .orT a b (ih1.2 t2) hb⟩
+    | _, _, _, _, _, _, .orF a b h1 hb h2, hc => by
+        have ih1 := frame W h1 (clean_boolOp2 hc).1
+        have ih2 := frame W h2 (clean_boolOp2 hc).2
+        exact ⟨ih2.1.trans ih1.1, fun t2 => .orF a b (ih1.2 t2) hb (ih2.2 t2)⟩
     | _, _, _, _, _, _, .runner u t, _ => ⟨rfl, fun t2 => .runner u t2⟩
     | _, _, _, _, _, _, .chain f a hch h1 h2, hc => by
         have ih1 := frame W h1 (clean_chain hch hc).1
